@@ -356,13 +356,54 @@ def rel_err(got: float, want: Decimal) -> float:
     return float(abs(exact(got) - want) / abs(want))
 
 
-def precision_class(dtypes: dict) -> str:
-    """'single' when any floating operand is float32 (the computation is then only single-precision accurate),
-    else 'double'"""
-    return 'single' if any(d == 'float32' for d in dtypes.values()) else 'double'
+def result_class(dtype: str) -> str:
+    """the precision class is that of the RESULT: a float64 result must be within 1e-11 of the exact formula evaluated
+    on the inputs as given (a float32 or integer operand is an exactly representable input), a float32 result within 1e-5"""
+    return 'single' if dtype == 'float32' else 'double'
 
 
 TOL = {'double': 1e-11, 'single': 1e-5}
+
+
+def f32_operands(dtypes: dict) -> list[str]:
+    return sorted(a for a, d in dtypes.items() if d == 'float32')
+
+
+def mixed_precision_key(prop: str, name: str, dtypes: dict, result_dtype: str, err: float):
+    """a float64 result that is only single-precision accurate (1e-11 <= error < 1e-5) because some float32 operand
+    was combined in single precision before the promotion gets its own key per kernel; the witness and the message
+    name the float32 operands"""
+    if result_dtype == 'float64' and f32_operands(dtypes) and err < 1e-5:
+        return f'{prop}:mixed-precision:{name}'
+    return None
+
+
+_PROBE: dict = {}
+
+
+def scipp_pow_supported(dtype: str) -> bool:
+    """does scipp define `x ** 2` for this element type? (probed on the primitive, not assumed)"""
+    if dtype not in _PROBE:
+        import scipp as sc
+
+        try:
+            _ = sc.scalar(3, dtype=dtype) ** 2
+            _ = sc.scalar(3, dtype=dtype) ** sc.scalar(2, dtype=dtype)
+            _PROBE[dtype] = True
+        except sc.DTypeError:
+            _PROBE[dtype] = False
+    return _PROBE[dtype]
+
+
+#: operands the *formula* squares (E = m L^2 / 2 t^2, E = h^2 / 2 m lambda^2, Delta E: L1^2, L2^2)
+SQUARED = {
+    'energy_from_tof': ['tof', 'Ltotal'], 'energy_from_wavelength': ['wavelength'],
+    'energy_transfer_direct_from_tof': ['L1', 'L2'], 'energy_transfer_indirect_from_tof': ['L1', 'L2'],
+}
+
+
+def unsupported_by_scipp(name, dtypes) -> bool:
+    return any(not scipp_pow_supported(dtypes[a]) for a in SQUARED.get(name, []))
 
 
 def expected_dtype(kernel: Kernel, dtypes: dict) -> str:
